@@ -16,7 +16,7 @@ exec 9>.cache/build.lock
 flock 9
 stamp() {
   { (cd /repo && find . -name '*.go' -not -path './.git/*' -o -name go.mod -o -name go.sum | sort | xargs sha256sum)
-    find govirt rt shims harness -type f \( -name '*.go' -o -name go.mod -o -name go.sum \) | sort | xargs sha256sum
+    find govirt rt shims harness -type f \( -name '*.go' -o -name go.mod -o -name go.sum \) -not -path 'harness/realdeps/*' | sort | xargs sha256sum
     go version; } | sha256sum | cut -d' ' -f1
 }
 NEW=$(stamp)
@@ -37,6 +37,7 @@ rm -f .cache/build.stamp
 if [ ! -x .cache/bin/govirt ] || [ -n "$(find govirt -newer .cache/bin/govirt -name '*.go' 2>/dev/null)" ]; then
   (cd govirt && go build -o ../.cache/bin/govirt .)
 fi
+[ -d harness/realdeps/conc ] || ./mkreal.sh
 .cache/bin/govirt -repo /repo -rt "$ROOT/rt" -out "$ROOT/.cache/overlay"
 (cd harness && go build -tags verif -overlay "$ROOT/.cache/overlay/overlay.json" -o ../.cache/bin/kmc ./cmd/kmc)
 (cd /repo && go build -o "$ROOT/.cache/bin/knut-plain" .)
